@@ -122,6 +122,66 @@ def run_remove_all_cofaces(chk, F):
     chk.expect_count('E2-all-cofaces', 'remove_simplex implementations', n, 2)
 
 
+def run_insert_shortcut(chk, F):
+    """E8-shortcut: Toplex_map::insert_simplex erases the stored simplices the new one covers. The general arm scans
+    every stored simplex included in it; the shortcut arm erases only its facets, which is complete only when *every*
+    facet is itself stored as a toplex (then no smaller face can be maximal). The guard of the shortcut is therefore
+    a universal statement over facets(vertex_range): a flag initialised true and cleared for a non-maximal facet, or
+    std::all_of - an existential guard (some facet is maximal) leaves other covered toplices stored."""
+    fs = [f for f in F.functions if f.get('clsname') == 'Toplex_map' and f['name'] == 'insert_simplex' and
+          f.get('inst') in (0, 2) and f.get('body') is not None]
+    if len(fs) != 1:
+        raise AnalysisBroken('C16: Toplex_map::insert_simplex not found')
+    f = fs[0]
+    where = '%s:%d' % (rel(f['file']), f['line'])
+    # the shortcut: an if whose then-arm erases `get_key(facet)`-like things in a loop over facets(...) only
+    cand = []
+    for x in ir.walk(f['body']):
+        if x.get('k') == 'IfStmt' and x.get('else') is not None:
+            then_calls = [y for y in ir.walk(x.get('then')) if ir.is_call(y) and ir.call_name(y) in ERASERS]
+            else_calls = [y for y in ir.walk(x.get('else')) if ir.is_call(y) and ir.call_name(y) in ERASERS]
+            if then_calls and else_calls:
+                cand.append(x)
+    if len(cand) != 1:
+        if not cand:
+            chk.ob('E8-shortcut', 'Toplex_map::insert_simplex has no facet-only shortcut', where, True, '',
+                   key='E8|Toplex_map::insert_simplex|shortcut', nontrivial=False)
+            return
+        raise AnalysisBroken('C16: several erasing if/else found in Toplex_map::insert_simplex')
+    g = cand[0]
+    cond = ir.skipcasts(g.get('cond'))
+    ct = ir.show(cond).replace(' ', '')
+    ok = None
+    why = ''
+    if cond.get('k') == 'DeclRefExpr':
+        flag = cond['n']
+        init_true = any(x.get('k') == 'VarDecl' and x.get('n') == flag and x.get('init') is not None and
+                        ir.show(x['init']) == 'true' for x in ir.walk(f['body']))
+        cleared = False
+        for loop in ir.walk(f['body']):
+            if loop.get('k') != 'CXXForRangeStmt' or 'facets(' not in ir.show(loop.get('range')):
+                continue
+            for y in ir.walk(loop.get('body')):
+                if y.get('k') == 'IfStmt' and ir.show(y.get('cond')).replace(' ', '').startswith('!maximality(') and \
+                        ir.contains(y.get('then'), lambda z: z.get('k') == 'BinaryOperator' and z.get('op') == '=' and
+                                    ir.show(z['c'][0]) == flag and ir.show(z['c'][1]) == 'false'):
+                    cleared = True
+        sets_true = any(z.get('k') == 'BinaryOperator' and z.get('op') == '=' and ir.show(z['c'][0]) == flag and
+                        ir.show(z['c'][1]) == 'true' for z in ir.walk(f['body']))
+        ok = init_true and cleared and not sets_true
+        why = '' if ok else 'the flag `%s` is not "true unless some facet is not maximal"' % flag
+    elif 'all_of(' in ct:
+        ok = True
+    elif 'any_of(' in ct or ct.endswith('.empty()') or '.size()' in ct or ct.startswith('!') and '.empty()' in ct:
+        ok = False
+        why = 'the shortcut is taken when `%s`: an existential condition (some facet is a toplex) - a stored toplex ' \
+              'that is a smaller face of the new simplex stays stored next to it' % ir.show(cond)
+    else:
+        raise AnalysisBroken('C16: the guard of the facet shortcut has a shape the rule does not know: %s' % ct)
+    chk.ob('E8-shortcut', 'Toplex_map::insert_simplex takes the facet-only shortcut only when every facet is a toplex',
+           '%s:%s' % (rel(f['file']), g.get('l')), ok, why, key='E8|Toplex_map::insert_simplex|shortcut')
+
+
 def run(tier, replay=None):
     chk = Check('C16', tier,
                 'Static decision of one information-flow clause of the toplex maps: in every loop over maximal '
@@ -151,6 +211,20 @@ def run(tier, replay=None):
                 continue
             n_loops += 1
             dep = dependence(body, {lv})
+            # the toplex is erased before anything is re-inserted: insert_simplex looks stored simplices up (it
+            # returns at once when its argument is covered; the lazy map's cleaning drops covered simplices), so a
+            # face inserted while its toplex is still stored is lost when the toplex goes
+            order = [x for x in ir.walk(body) if ir.is_call(x) and (x in erases or x in inserts)]
+            first_ins = next((i for i, x in enumerate(order) if x in inserts), None)
+            last_er = max((i for i, x in enumerate(order) if x in erases), default=None)
+            ok_order = first_ins is None or last_er is None or last_er < first_ins
+            chk.ob('E2-erase-first', '%s::%s: the toplex is erased before its faces / images are re-inserted'
+                   % (f['clsname'], f['name']), '%s:%s' % (rel(f['file']), loop.get('l')), ok_order,
+                   '' if ok_order else '%s(...) at line %s runs while the toplex %s is still stored (erased at line '
+                   '%s): a face of a stored simplex is covered, the insertion is dropped, and nothing is left once '
+                   'the toplex is erased' % (ir.call_name(order[first_ins]), order[first_ins].get('l'),
+                                             (loop.get('var') or {}).get('n'), order[last_er].get('l')),
+                   key='E2|%s::%s|erase-first' % (f['clsname'], f['name']))
             for ins in inserts:
                 args = ir.call_args(ins)
                 ok = any(refs(a) & dep for a in args)
@@ -164,6 +238,7 @@ def run(tier, replay=None):
                        key='E10|%s::%s|%s' % (f['clsname'], f['name'], ir.call_name(ins)))
     run_face_only_reinsertion(chk, F)
     run_remove_all_cofaces(chk, F)
+    run_insert_shortcut(chk, F)
     chk.count('erase-and-reinsert loops', n_loops)
     chk.expect_count('E10-provenance', 'erase-and-reinsert loops', n_loops, 6)
     chk.assumptions += ['clang 14 parser', 'dependence is syntactic def-use over the loop body (sound over-approximation '
